@@ -1,6 +1,12 @@
 """C04 — fiber_join / fiber_tryjoin / fiber_detach against fiber completion (src/fiber.c,
 set_and_wait / clear_or_wait / deferred set_wait_location / done_fiber in src/fiber_manager.c)."""
+import os
+
 from specs import sched_env, n_cases
+
+# "Join" = the code in /repo; "JoinCas" = the candidate fix docs/fix-C04.diff (only together
+# with VERIF_REPO=<tree with the fix applied>)
+MODEL = os.environ.get("VERIF_C04_MODEL", "Join")
 
 
 def gen_case(rng, tier):
@@ -29,11 +35,6 @@ def gen_case(rng, tier):
         actors.append(",".join(ops))
     k = rng.choice([1, 2, 2, 3])
     env = sched_env(rng, budget=600000)
-    while k > 1 and env["VR_SCHED"] == "pct":
-        # strict-priority schedules are unfair to clear_or_wait's exchange-and-yield loop (it
-        # writes, so the runtime does not see it as spinning) and would starve the very thread
-        # that has to perform the deferred store it is waiting for
-        env = sched_env(rng, budget=600000)
     return {"args": [k, ",".join(map(str, yields)), "|".join(actors)], "env": env}
 
 
@@ -51,7 +52,7 @@ def nontrivial(sig):
 
 SPEC = {
     "C04": {
-        "parts": [{"name": "join", "harness": "join", "model": "Join", "runtime": True, "gen": gen,
+        "parts": [{"name": "join", "harness": "join", "model": MODEL, "runtime": True, "gen": gen,
                    # STRANDED = the harness gave up polling; what is stranded, and whether that is held
                    # against the library, is the monitor's verdict on the log
                    "ok_status": ("OK", "STRANDED"),
